@@ -7,6 +7,9 @@ package harness
 
 import (
 	"fmt"
+	"os"
+	"os/exec"
+	"runtime/debug"
 	"strings"
 	"time"
 
@@ -164,6 +167,28 @@ func c03Units(tier string, seed int64) []Unit {
 			}
 		}
 	}})
+	// a constructor must return for every Go type it accepts: Make for a type that is recursive without a
+	// pointer in the cycle (the usual "node with a slice of children"). An unbounded recursion while
+	// constructing ends in Go's unrecoverable stack overflow, which takes the worker down; the parent
+	// classifies that as "process-crash kind=stack-overflow unit=<this unit>".
+	units = append(units, Unit{Name: "C03/Make[node{Kids []node}]/construct", Run: func(c *Ctx) {
+		self, _ := os.Executable()
+		out, err := exec.Command(self, "constructprobe", "recNode").CombinedOutput()
+		c.R.Evals++
+		c.R.States++
+		c.R.Transitions++
+		switch {
+		case err == nil && strings.Contains(string(out), "constructed"):
+			c.Outcome("constructed", true)
+		case crashKind(string(out)) != "":
+			c.Outcome("crash "+crashKind(string(out)), true)
+			c.Violate(Violation{Sig: "C03 constructor-never-returns prog=Make[node{Kids []node}] crash=" + crashKind(string(out)),
+				Detail: "rapid.Make[recNode]() (type recNode struct{ Val int8; Kids []recNode }) took the process down:\n" + trunc(string(out), 1500),
+				Replay: map[string]any{"engine": "construct", "program": "Make[recNode]"}})
+		default:
+			c.R.HarnessErr = fmt.Sprintf("constructprobe: %v: %s", err, trunc(string(out), 500))
+		}
+	}})
 	return units
 }
 
@@ -234,4 +259,19 @@ func c03New(c *Ctx, p Prog) (body func(t *rapid.T, r *Rec), ok bool) {
 		}
 	}()
 	return p.New(), true
+}
+
+type recNode struct {
+	Val  int8
+	Kids []recNode
+}
+
+// ConstructProbeMain (subprocess) constructs one generator whose construction may never return.
+func ConstructProbeMain(which string) {
+	debug.SetMaxStack(64 << 20) // fail after 64 MiB of stack instead of 1 GiB
+	switch which {
+	case "recNode":
+		g := rapid.Make[recNode]()
+		fmt.Println("constructed", g.String())
+	}
 }
